@@ -571,8 +571,9 @@ theorem replaceAround_undo_partial (S : Schema) (doc doc' doc'' : Node) (f t gf 
 /-- **the inverse of a successfully applied replace-around step applies and restores the document**,
     provided the three checks of the inverse that the forward step does not imply pass:
     `hst` — the structure checks of the inverse (only if the step carries the structure flag);
-    `hfit` — putting the gap back into the old slice is not rejected by `insert_into`'s fit check;
-    `hj` — the guard of `replace_undo` for the slice with the gap inserted.
+    `hfit` — putting the gap back into the old slice is not rejected by `insert_into`'s fit check
+    (`gapFitsBack`, PM/UndoGuard.lean);
+    `hj` — the guard of `replace_undo` for the slice with the gap inserted (`sidesCompatibleAround`).
     `ha`: the four positions the inverse resolves in `doc'` do not split a surrogate pair. -/
 theorem replaceAround_undo (S : Schema) (doc doc' : Node) (f t gf gt : Nat) (sl : Slice)
     (ins : Nat) (b : Bool) (inv : Step)
@@ -582,10 +583,8 @@ theorem replaceAround_undo (S : Schema) (doc doc' : Node) (f t gf gt : Nat) (sl 
     (hi : S.invert (.replaceAround f t gf gt sl ins b) doc = .ok inv)
     (hst : b = true → contentBetween doc' f (f + ins) = some false ∧
       contentBetween doc' (f + ins + (gt - gf)) (f + sl.size.toNat + (gt - gf)) = some false)
-    (hfit : ∀ old rem gap, doc.slice f t = .ok old → old.removeBetween (gf - f) (gt - f) = .ok rem →
-      doc.slice gf gt = .ok gap → ∃ x, rem.insertAt S (gf - f) gap.content = .ok (some x))
-    (hj : ∀ gap inserted, doc.slice gf gt = .ok gap → sl.insertAt S ins gap.content = .ok (some inserted) →
-      sidesCompatible S doc f t inserted = true)
+    (hfit : gapFitsBack S doc f t gf gt = true)
+    (hj : sidesCompatibleAround S doc f t gf gt sl ins = true)
     (ha : alignedAt doc'.kids f = true ∧ alignedAt doc'.kids (f + ins) = true ∧
       alignedAt doc'.kids (f + ins + (gt - gf)) = true ∧
       alignedAt doc'.kids (f + sl.size.toNat + (gt - gf)) = true) :
@@ -593,7 +592,8 @@ theorem replaceAround_undo (S : Schema) (doc doc' : Node) (f t gf gt : Nat) (sl 
   obtain ⟨gap, inserted, hgap, hgo1, hgo2, hinst, hfr1⟩ :=
     apply_replaceAround_parts S doc doc' f t gf gt sl ins b h1
   obtain ⟨hK', htK, _⟩ := apply_replaceAround_toks S doc doc' f t gf gt sl ins b hwf hins hg h1
-  have hj' := hj gap inserted hgap hinst
+  have hj' : sidesCompatible S doc f t inserted = true := by
+    simpa [sidesCompatibleAround, hgap, hinst] using hj
   obtain ⟨ty, a, m, K, K', rfl, rfl, hr1⟩ := fromReplace_elem S doc doc' f t inserted hfr1
   simp only [Node.kids] at hn hK' htK ha
   have hgap' : sliceKids K gf gt = .ok gap := hgap
@@ -632,7 +632,11 @@ theorem replaceAround_undo (S : Schema) (doc doc' : Node) (f t gf gt : Nat) (sl 
       have hsl' : sliceKids K f t = .ok old := hsl
       have hon := sliceKids_norm K f t old hn hsl'
       have hosz := sliceKids_size K f t old (by omega) htK hsl'
-      obtain ⟨x, hx⟩ := hfit old rem gap hsl hrm hgap
+      obtain ⟨x, hx⟩ : ∃ x, rem.insertAt S (gf - f) gap.content = .ok (some x) := by
+        simp only [gapFitsBack, hsl, hgap, hrm] at hfit
+        split at hfit
+        · exact ⟨_, by assumption⟩
+        · simp at hfit
       -- the gap is found again in `doc'`
       obtain ⟨A, P, G, Q, D, hK, hA, hP, hG, hQ⟩ := split5 (ftoks K) f gf gt t hg.1 hg.2.1 hg.2.2
         (by rw [ftoks_length]; exact htK)
@@ -775,21 +779,100 @@ example : wrapS.apply wInv wDoc' = .ok wDoc := by
   · simp [wSl, Slice.size]
   · omega
   · intro h; simp at h
-  · intro old rem gap h1 h2 h3
-    rw [w_slice] at h1 h3
-    simp at h1 h3
-    subst h1; subst h3
-    simp [Slice.removeBetween, removeRange, removeRange.removeFlat, inRange, flatAt, fcut, fappend] at h2
-    subst h2
-    exact ⟨_, by simp [Slice.insertAt, insertInto, flatInsert, fcut, fappend]; rfl⟩
-  · intro gap inserted h1 h2
-    rw [w_slice] at h1
-    simp at h1; subst h1
-    rw [w_ins] at h2
-    simp at h2; subst h2
+  · simp only [gapFitsBack, w_slice]
+    simp [Slice.removeBetween, removeRange, removeRange.removeFlat, inRange, flatAt, fcut, fappend,
+      Slice.insertAt, insertInto, flatInsert]
+  · simp only [sidesCompatibleAround, w_slice, w_ins]
     exact sidesCompatible_of_closed _ _ _ _ _ (.inl rfl)
   · simp [wDoc', Node.kids, wSl, Slice.size, alignedAt]
 end ExampleAround
+
+/-! The fit guard of `replaceAround_undo` cannot be dropped.  `doc "(X|Z)*"`, `X "text?"`, `Z "text*"`;
+    `doc(X("abXYcd"))`; the step "replace 0…8 around the gap 3…5 (`XY`) by `Z()`" gives `doc(Z("XY"))`.
+    Its inverse has to put `XY` back into `X("abcd")` at offset 2 of the text; `insert_into` asks
+    `X.can_replace(0, 0, [text])`, i.e. whether `text text` matches `text?`, and refuses. -/
+section NeedsFit
+private def fgnt (name : String) (dfa : Array DfaState) : NodeType :=
+  { name := name, isText := false, isInline := false, isLeaf := false, isAtom := false,
+    inlineContent := false, isolating := false, defining := false, code := false,
+    dfa := dfa, markSet := some [], attrs := [] }
+private def fgS : Schema :=
+  { nodes := #[
+      fgnt "doc" #[⟨true, [(1, 0), (2, 0)]⟩],
+      fgnt "X" #[⟨true, [(3, 1)]⟩, ⟨true, []⟩],
+      fgnt "Z" #[⟨true, [(3, 0)]⟩],
+      { fgnt "text" #[⟨true, []⟩] with isText := true, isInline := true, isLeaf := true, isAtom := true }],
+    marks := #[], top := 0, textTy := 3 }
+private def fgDoc : Node := .elem 0 [] [] [.elem 1 [] [] [.text [97, 98, 88, 89, 99, 100] []]]
+private def fgSl : Slice := ⟨[.elem 2 [] [] []], 0, 0⟩
+private def fgDoc' : Node := .elem 0 [] [] [.elem 2 [] [] [.text [88, 89] []]]
+private def fgOld : Slice := ⟨[.elem 1 [] [] [.text [97, 98, 88, 89, 99, 100] []]], 0, 0⟩
+private def fgRem : Slice := ⟨[.elem 1 [] [] [.text [97, 98, 99, 100] []]], 0, 0⟩
+private def fgInv : Step := .replaceAround 0 4 1 3 fgRem 3 false
+
+private theorem fg_slice08 : fgDoc.slice 0 8 = .ok fgOld := by
+  simp [Node.slice, Node.kids, fgDoc, fgOld, sliceKids, inRange, sliceScan, sliceHere, fcut, depthAt]
+
+private theorem fg_slice35 : fgDoc.slice 3 5 = .ok ⟨[.text [88, 89] []], 0, 0⟩ := by
+  simp [Node.slice, Node.kids, fgDoc, sliceKids, inRange, sliceScan, sliceHere, fcut, fcutLoop, cutText,
+    splitOk, isHigh, isLow, depthAt]
+
+private theorem fg_ins : fgSl.insertAt fgS 1 [.text [88, 89] []] = .ok (some ⟨[.elem 2 [] [] [.text [88, 89] []]], 0, 0⟩) := by
+  have hc : fgS.canReplace 2 [] 0 0 [Node.text [88, 89] []] 0 1 = some true := by decide
+  simp [Slice.insertAt, fgSl, insertInto, flatInsert, hc, fcut, fappend]
+
+private theorem fg_fwd : fgS.apply (.replaceAround 0 8 3 5 fgSl 1 false) fgDoc = .ok fgDoc' := by
+  have hv : fgS.validContent 0 [Node.elem 2 [] [] [Node.text [88, 89] []]] = true := by decide
+  simp only [Schema.apply, fg_slice35, fg_ins]
+  simp [Schema.fromReplace, Schema.replace, fgDoc, fgDoc', replaceKids, inRange, depthAt, Slice.wf, spineL,
+    spineR, outer, atLevel, fcut, fappend, hv, Except.map]
+
+private theorem fg_rem : fgOld.removeBetween 3 5 = .ok fgRem := by
+  simp [Slice.removeBetween, fgOld, fgRem, removeRange, removeRange.removeFlat, inRange, flatAt, fcut, fcutLoop,
+    cutText, splitOk, isHigh, isLow, fappend, addNode, Node.isText]
+
+private theorem fg_inv : fgS.invert (.replaceAround 0 8 3 5 fgSl 1 false) fgDoc = .ok fgInv := by
+  simp only [Schema.invert, fg_slice08]
+  simp [fg_rem, fgSl, Slice.size, fgInv]
+
+private theorem fg_nofit : fgRem.insertAt fgS 3 [.text [88, 89] []] = .ok none := by
+  have hc : fgS.canReplace 1 [Node.text [97, 98, 99, 100] []] 0 0 [Node.text [88, 89] []] 0 1 = some false := by
+    decide
+  simp [Slice.insertAt, fgRem, insertInto, flatInsert, hc]
+
+private theorem fg_gap2 : fgDoc'.slice 1 3 = .ok ⟨[.text [88, 89] []], 0, 0⟩ := by
+  simp [Node.slice, Node.kids, fgDoc', sliceKids, inRange, sliceScan, sliceHere, fcut, depthAt]
+
+private theorem fg_undo_fails : fgS.apply fgInv fgDoc' = .error .failed := by
+  simp [Schema.apply, fgInv, fg_gap2, fg_nofit]
+
+/-- **the fit guard `gapFitsBack` of `replaceAround_undo` is necessary** (structure flag off, the other
+    hypotheses hold): the inverse is rejected with `failed` ("Content does not fit in gap").  The same
+    happens in the code (and upstream). -/
+theorem replaceAround_undo_needs_guard :
+    ∃ (S : Schema) (doc doc' : Node) (f t gf gt : Nat) (sl : Slice) (ins : Nat) (inv : Step),
+      S.checkNode doc = true ∧ fnorm doc.kids = true ∧ fnorm sl.content = true ∧ sl.wf = true ∧
+      (ins : Int) ≤ sl.size ∧ (f ≤ gf ∧ gf ≤ gt ∧ gt ≤ t) ∧
+      S.apply (.replaceAround f t gf gt sl ins false) doc = .ok doc' ∧
+      S.invert (.replaceAround f t gf gt sl ins false) doc = .ok inv ∧
+      sidesCompatibleAround S doc f t gf gt sl ins = true ∧
+      (alignedAt doc'.kids f = true ∧ alignedAt doc'.kids (f + ins) = true ∧
+        alignedAt doc'.kids (f + ins + (gt - gf)) = true ∧
+        alignedAt doc'.kids (f + sl.size.toNat + (gt - gf)) = true) ∧
+      gapFitsBack S doc f t gf gt = false ∧
+      S.apply inv doc' = .error .failed := by
+  refine ⟨fgS, fgDoc, fgDoc', 0, 8, 3, 5, fgSl, 1, fgInv, by decide, ?_, ?_, ?_, ?_, by omega, fg_fwd, fg_inv,
+    ?_, ?_, ?_, fg_undo_fails⟩
+  · simp [fgDoc, Node.kids, fnorm, fnormKids, Node.norm, chainOk]
+  · simp [fgSl, fnorm, fnormKids, Node.norm, chainOk]
+  · simp [fgSl, Slice.wf, spineL, spineR]
+  · simp [fgSl, Slice.size]
+  · simp only [sidesCompatibleAround, fg_slice35, fg_ins]
+    exact sidesCompatible_of_closed _ _ _ _ _ (.inl rfl)
+  · simp [fgDoc', Node.kids, fgSl, Slice.size, alignedAt, splitOk]
+  · simp only [gapFitsBack, fg_slice08, fg_slice35]
+    simp [fg_rem, fg_nofit]
+end NeedsFit
 
 mutual
 /-- every node carries its attributes the way the library builds them (`compute_attrs` would return
